@@ -77,6 +77,14 @@ GRID = {"int": INTS, "float": FLOATS, "bool": BOOLS, "string": STRS}
 DT = {"int": "int64", "float": "float64", "bool": "bool", "string": "string"}
 
 
+def _float_close(a, b) -> bool:
+    """element-wise arithmetic is one IEEE operation on either backend: float results agree to relative 1e-12 (the frame
+    comparison of the other checks allows an absolute 1e-9, which hid SQLite quotients rounded to ten decimals - D82)"""
+    if isinstance(a, float) and isinstance(b, float) and not (math.isnan(a) or math.isnan(b) or math.isinf(a) or math.isinf(b)):
+        return abs(a - b) <= 1e-12 * max(abs(a), abs(b))
+    return True
+
+
 def in_domain(op, args) -> bool:
     if op in ("floordiv", "mod", "truediv") and (args[1] == 0 or args[1] is None and False):
         return False
@@ -130,6 +138,10 @@ def build_cases(tier, rng):
                 for lit in [v for v in GRID[sig[1]] if v is not None][:4]:
                     rows1 = [(a, lit) for a in GRID[sig[0]] if in_domain(op, (a, lit))]
                     cases.append(dict(op=op, sig=sig, rows=rows1, form="col-lit", lit=lit, consts=()))
+                # literal on the left (the reflected operators: `1 + t.a`, `True + t.p`, `"x" + t.s`, `2 < t.a`)
+                for lit in [v for v in GRID[sig[0]] if v is not None][:3]:
+                    rows2 = [(lit, b) for b in GRID[sig[1]] if in_domain(op, (lit, b))]
+                    cases.append(dict(op=op, sig=sig, rows=rows2, form="lit-col", lit=lit, consts=()))
     for op, specs in CONST_OPS.items():
         for colsig, consts_list in specs:
             for consts in consts_list:
@@ -147,6 +159,8 @@ def program_for(case) -> dict:
         cols.append(dict(name=n, dtype=DT[cls], vals=[r[i] for r in case["rows"]]))
     if case["form"] == "col-lit":
         args = [{"col": ["t0", "a"]}, {"lit": case["lit"]}]
+    elif case["form"] == "lit-col":
+        args = [{"lit": case["lit"]}, {"col": ["t0", "b"]}]
     else:
         args = [{"col": ["t0", n]} for n in names] + [{"lit": c} for c in case["consts"]]
     e = {"fn": case["op"], "args": args}
@@ -202,7 +216,7 @@ def run(tier: str, seed: int) -> int:
         if pol[0] == "ok" and sq[0] == "ok":
             for ri, (r, a, b) in enumerate(zip(case["rows"], pol[1], sq[1])):
                 n_eval += 1
-                if not oracle.cell_eq(a, b):
+                if not oracle.cell_eq(a, b) or not _float_close(a, b):
                     diffs.append(dict(kind="backends_differ", op=case["op"], form=case["form"], args=list(r), polars=a, sqlite=b))
         if model_out is not None and pol[0] == "ok":
             for ri, (r, a, m) in enumerate(zip(case["rows"], pol[1], mvals)):
